@@ -501,3 +501,28 @@ End UpMore.
 (** the hypotheses of [powershell_generate_structure_src] hold for the example tree *)
 Example powershell_src_hyps : cmd_plain ps_plain ex_tree = true /\ ps_plainl [112] = true.
 Proof. split; vm_compute; reflexivity. Qed.
+
+(** coverage for [clap_complete::aot::generate] as a whole: ONE script, every path of the built tree *)
+Theorem powershell_generate_covers up c t bin : bin <> [] ->
+  exists b script,
+    build (set_bin_name c bin) = Some b /\ generate_powershell up c t bin = Some script /\
+    forall ws ns n, reach b ws ns n ->
+      exists tn,
+        infix (case_block (path_key bin ws) (entries (ps_fmt up) n tn)) script /\
+        (forall a s0 s, In a (c_args n) -> a_is_positional a = false -> a_short a = Some s0 ->
+           (s = s0 \/ In (s, true) (a_short_aliases a)) ->
+           exists tip, infix (ps_short up s tip) (entries (ps_fmt up) n tn)) /\
+        (forall a l0 l, In a (c_args n) -> a_is_positional a = false -> a_long a = Some l0 ->
+           (l = l0 \/ In (l, true) (a_aliases a)) ->
+           exists tip, infix (ps_long l tip) (entries (ps_fmt up) n tn)) /\
+        (forall sc w, In sc (c_subs n) -> In w (get_name_and_visible_aliases sc) ->
+           exists tip, infix (ps_sub w tip) (entries (ps_fmt up) n tn)).
+Proof.
+  intros Hne. destruct (build (set_bin_name c bin)) as [b|] eqn:Hb; [|exfalso; exact (build_total _ Hb)].
+  destruct (tbuild_total _ b t Hb) as [tb Htb].
+  pose proof (build_root_bin c bin b Hb) as Hbin. pose proof (build_bins_built _ _ Hb) as Hbb.
+  exists b, (render bin (gi (ps_fmt up) b tb [])). split; [reflexivity|]. split.
+  - unfold generate_powershell. rewrite Hb, Htb. apply generate_spec; assumption.
+  - intros ws ns n Hr. destruct (powershell_covers up b tb bin ws ns n Hbin Hne Hbb Hr) as (script & tn & G & H).
+    rewrite (generate_spec up b tb bin Hbin Hbb) in G. inversion G; subst script. exists tn. exact H.
+Qed.
